@@ -294,4 +294,25 @@ theorem findCollapsed_snps_sorted (threads : List (List Nat)) (cols : List (List
   rw [List.pairwise_flatMap] at h
   exact h.1 s hs
 
+/-! ## the stage order with arbitrary heuristics -/
+
+/-- whatever the likelihood (`pick`) says, `forceCol` is one of the results the relation `ForceOut` admits -/
+theorem forceCol_forceOut (pick : List Allele → List Allele → List Nat → List Allele → List Allele)
+    (col gv : List Allele) : ForceOut col gv (forceCol pick col gv) := by
+  unfold ForceOut forceCol
+  cases hfs : forceStep col gv with
+  | skipUndetermined => rfl
+  | nothingAbundant => rfl
+  | choose aff ins =>
+    simp only
+    by_cases h : (pick col gv aff ins).isPerm ins = true
+    · exact ⟨pick col gv aff ins, List.isPerm_iff.mp h, by simp [h]⟩
+    · exact ⟨ins, List.Perm.refl _, by simp [h]⟩
+
+theorem sanPerm_perm (k : Nat) (p : List Nat) : (sanPerm k p).Perm (List.range k) := by
+  unfold sanPerm
+  by_cases h : p.isPerm (List.range k) = true
+  · simp only [h, if_true]; exact List.isPerm_iff.mp h
+  · simp [h]
+
 end WhVerif.C15
